@@ -13,7 +13,7 @@ from vf.models.sse import EventSourceParser
 PROPERTY = "C19"
 LEVEL = "exploration"
 SHARDS = {"quick": 4, "thorough": 16}
-REQUIRED = ["eventsource-parse", "order-and-count", "ping-ignored", "asgi-stream", "wsgi-stream", "event-object-reused", "re-iterable-producer"]
+REQUIRED = ["eventsource-parse", "order-and-count", "ping-ignored", "asgi-stream", "wsgi-stream", "event-object-reused", "re-iterable-producer", "slow-consumer"]
 RULE = ("Random event dictionaries: every subset/order of data/event/id/retry; data built from an alphabet of CR, LF, CRLF, U+000B, U+000C, "
         "U+001C-1E, U+0085, U+2028, U+2029, BOM, spaces, colons, empty string, JSON, non-ASCII; single-line names/ids; retry >= 0; charsets "
         "utf-8 / latin-1 / gbk / cp1252 (data restricted to what the charset encodes). Each event alone through build_bytes_from_sse, and sequences "
@@ -179,7 +179,8 @@ def asgi_stream(ctx, events, delays, charset, ping=1.0, share=False):
 _POOL_N = [0]
 
 
-def wsgi_stream(ctx, events, delays, charset, ping=0.02, share=False):
+def wsgi_stream(ctx, events, delays, charset, ping=0.02, share=False, consumer_delay=0.0):
+    """consumer_delay: the server needs that long to write each chunk out (a slow client) - several ping intervals"""
     import time
 
     import baize.wsgi.responses as R
@@ -196,10 +197,21 @@ def wsgi_stream(ctx, events, delays, charset, ping=0.02, share=False):
                     time.sleep(d)
                 yield ev if share else dict(ev)
         resp = wsgi.SendEventResponse(gen(), ping_interval=ping, charset=charset)
-        r = drivers.run_wsgi(resp, drivers.to_environ(drivers.Req()))
+        if consumer_delay:
+            env = drivers.to_environ(drivers.Req())
+            slow = resp
+
+            def resp(environ, start_response):  # noqa: F811  (the same application, its chunks taken slowly)
+                for chunk in slow(environ, start_response):
+                    yield chunk
+                    time.sleep(consumer_delay)
+            r = drivers.run_wsgi(resp, env)
+        else:
+            r = drivers.run_wsgi(resp, drivers.to_environ(drivers.Req()))
     finally:
         pool.shutdown(wait=True)
-    case = {"events": expected_events if share else events, "delays": delays, "charset": charset, "iface": "wsgi", "same_dict_objects_yielded": share}
+    case = {"events": expected_events if share else events, "delays": delays, "charset": charset, "iface": "wsgi", "same_dict_objects_yielded": share,
+            "consumer_delay": consumer_delay, "ping": ping}
     ctx.mon("wsgi-stream")
     if r.exc is not None:
         ctx.violation(f"exception|wsgi-stream|{type(r.exc).__name__}", case, repr(r.exc))
@@ -308,6 +320,14 @@ def run(ctx):
         ctx.case(("wsgi", repr(events), cs, tuple(delays)))
         if i < 1:
             ctx.sample("wsgi-sequence-with-pings", {"events": events, "delays": delays, "charset": cs})
+    # a client that takes several ping intervals per chunk while the producer has its events ready
+    for i in range(ctx.scale(8, 300)):
+        cs = rng.choice(CHARSETS)
+        n = rng.randrange(2, 6)
+        events = [gen_event(rng, cs) for _ in range(n)]
+        wsgi_stream(ctx, events, [0] * n, cs, ping=0.01, consumer_delay=0.035)
+        ctx.mon("slow-consumer")
+        ctx.case(("wsgi-slow", repr(events), cs))
 
 
 def _share(case):
@@ -331,7 +351,8 @@ def replay(ctx, case):
     if "event" in case:
         direct(ctx, case["event"], case["charset"])
     elif case.get("iface") == "wsgi":
-        wsgi_stream(ctx, _share(case), case["delays"], case["charset"], share=case.get("same_dict_objects_yielded", False))
+        wsgi_stream(ctx, _share(case), case["delays"], case["charset"], ping=case.get("ping", 0.02), share=case.get("same_dict_objects_yielded", False),
+                    consumer_delay=case.get("consumer_delay", 0.0))
     else:
         asgi_stream(ctx, _share(case), case["delays"], case["charset"], share=case.get("same_dict_objects_yielded", False))
     ctx.case(1)
